@@ -132,8 +132,12 @@ func TestC09(t *testing.T) {
 	if thorough() {
 		maxSteps = 60
 	}
-	keys := []string{"a", "b", "c"}
 	rapid.Check(t, func(t *rapid.T) {
+		// short keys, or keys beyond any small scratch buffer a request writer may use
+		keys := []string{"a", "b", "c"}
+		if rapid.IntRange(0, 3).Draw(t, "longKeys") == 0 {
+			keys = []string{"a", strings.Repeat("m", 124) + "1", strings.Repeat("n", 125) + "2", strings.Repeat("L", 249) + "3"}
+		}
 		shape := rapid.SampledFrom([]string{"l1only", "l1l2+batch", "l1l2+batch"}).Draw(t, "shape")
 		cfg := stack.Config{Shape: shape, Lock: rapid.SampledFrom([]string{"nolock", "lock1r"}).Draw(t, "lock"),
 			L1: rapid.SampledFrom([]string{"std", "chunked", "batched"}).Draw(t, "l1"), L2: "-"}
